@@ -127,8 +127,11 @@ def run(db, chk):
         "code, neighbour counts, linearisation of offsets) for 3 connectivities x 4 looping "
         "configurations x 9 node codes with symbolic shape, and of the profile grid's neighbour "
         "computation, against the geometric specification; who-may-write purity of the look-ups; "
-        "agreement of the accessors on their data sources.")
-    chk.not_decided = ["Euclidean distances / statuses numerically (computed by xtensor expressions)",
+        "agreement of the accessors on their data sources; concrete interpretation of the (row, col) "
+        "accessors on torus neighbourhoods (G8) and of the per-code distance table (G9) on representative "
+        "shapes.")
+    chk.not_decided = ["distances on shapes other than the representative ones of C07-G9 (the table depends on the "
+                       "shape only through the wrap offsets), profile-grid and mesh distances, neighbour statuses",
                        "size-2 looped axes (duplicate neighbours), outside the rule's bound DR, DC != 0 "
                        "and != +-1", "trimesh connectivity (C18)"]
     chk.assume("each axis is either of length exactly 2 (concrete) or symbolic of length >= 3; on a "
